@@ -596,6 +596,9 @@ int main(int argc, char *argv[])
       rl_attempted_completion_function = command_name_completion;
       line = readline(prompt);
 
+      // End of input (Ctrl-D) ends the session like quit.
+      if (line == NULL) { break; }
+
       if (!(line == NULL || line[0] == 0))
       {
         add_history(line);
